@@ -100,7 +100,8 @@ type Input struct {
 	Cfg [4]bool  `json:"cfg,omitempty"`
 	Trs []string `json:"trs,omitempty"`
 	// e2e
-	E2E *E2EInput `json:"e2e,omitempty"`
+	E2E   *E2EInput   `json:"e2e,omitempty"`
+	Multi *MultiInput `json:"multi,omitempty"`
 	Raw string    `json:"raw,omitempty"`
 }
 
@@ -1069,7 +1070,7 @@ func runCorpus(c *corr.Ctx) {
 				c.Note("corpus file " + filepath.Base(f) + ": " + e.Error())
 				continue
 			}
-			if in.Kind == "e2e" && os.Getenv("VERIF_SEC_ONLY") == "unit" {
+			if (in.Kind == "e2e" || in.Kind == "multi") && os.Getenv("VERIF_SEC_ONLY") == "unit" {
 				continue
 			}
 			replayNamed(c, &in, "corpus-"+strings.TrimSuffix(filepath.Base(f), ".json"))
